@@ -145,11 +145,11 @@ LOCK_FUNCS = ["ldb_lock_file", "ldb_unlock_file", "ldb_flock", "ldb_open", "ldb_
               "rb_tree_insert_fixup", "rb_tree_remove_node", "rb_tree_remove_fixup"]
 
 
-def _lock(prefix, script, wit, posix=0, realrbt=0, tier="quick", timeout=300, known=None):
+def _lock(prefix, script, wit, posix=1, realrbt=0, tier="quick", timeout=300, known=None):
     """script: list of ops, 0/1/2 = lock name n (names 0 and 1 are the same file), 10+j = unlock handle of step j"""
     k = len(script)
     tag = "".join(("L%d" % o) if o < 10 else ("U%d" % (o - 10)) for o in script)
-    nm = "%s.lockfile-%s%s%s" % (prefix, tag, "-oslock" if posix else "", "-rbt" if realrbt else "")
+    nm = "%s.lockfile-%s%s%s" % (prefix, tag, "" if posix else "-tableonly", "-rbt" if realrbt else "")
     defs = {"VP_K": k, "VP_POSIXCLOSE": posix, "VP_INTRS": 0, "VP_REALRBT": realrbt}
     for i in range(4):
         defs["VP_P%d" % i] = script[i] if i < k else 0
@@ -159,16 +159,16 @@ def _lock(prefix, script, wit, posix=0, realrbt=0, tier="quick", timeout=300, kn
                       ("unlock(handle of step %d)" % (o - 10)) for o in script)
     return Obl(nm, "envunix/lockfile.c", real=(["util/rbt.c"] if realrbt else []), include_real=["util/env.c", "util/env_unix_impl.h"],
                kit=["vp_nondet.c", "vp_mem.c"], defs=defs, real_defs=POSIX_DEFS,
-               unwind=8, unwindset={"ldb_open.0": 2, "vp_streq.0": 12, "memset.0": 40},
+               unwind=8, unwindset={"ldb_open.0": 2, "vp_streq.0": 12, "memset.0": 40, "vp_name_id.0": 4},
                sat="cadical", timeout=timeout, tier=tier, functions=LOCK_FUNCS, known=known,
-               desc=("OS-level view: a lock file held according to the in-process table is still fcntl-locked (POSIX: close of any "
-                     "descriptor of the file drops the process' lock)" if posix else
-                     "real ldb_lock_file/ldb_unlock_file + (dev,ino) table (%s): lock OK <=> file not held and no libc failure; "
+               desc=("real ldb_lock_file/ldb_unlock_file + (dev,ino) table (%s): lock OK <=> file not held and no libc failure; "
                      "second lock on a held file (any name) fails with ENOLCK; failure paths close the descriptor, return no handle, "
-                     "leave the table unchanged; unlock = F_UNLCK + close once + free + entry removed; errno of the first failing call returned"
+                     "leave the table unchanged; unlock = F_UNLCK + close once + free + entry removed; errno of the first failing call returned; "
+                     "OS level (POSIX: closing any descriptor of a file drops the process' record lock): a held file stays fcntl-locked, "
+                     "a refused attempt opens/closes nothing"
                      % ("real util/rbt.c" if realrbt else "array model of the set calling the real comparator by_fileid")),
-               bounds="script: %s; (dev,ino) of the two files symbolic 64-bit; every open/fstat/fcntl/close may fail with any errno "
-                      "(an unlock whose lock step failed is skipped)" % words)
+               bounds="script: %s; (dev,ino) of the two files symbolic 64-bit; every open/fstat/fcntl/close may fail with any errno, "
+                      "stat may fail for a file that is not held (an unlock whose lock step failed is skipped)" % words)
 
 
 def lockfile_obls(prefix):
@@ -185,8 +185,8 @@ def lockfile_obls(prefix):
 
 
 def lockfile_finding_obls(prefix):
-    """fails on the unchanged tree (POSIX close semantics); not part of lockfile_obls"""
-    return [_lock(prefix, [0, 1], ["REFUSED"], posix=1, known="C20-lockfile-close-drops-posix-lock")]
+    """kept for callers of the first version: the OS-level assertion is now part of every lockfile obligation (finding F4 fixed)"""
+    return []
 
 
 MISC = {
